@@ -5,4 +5,5 @@ from contracts.C04_field_validate import ArrayValidate, IndexValidate
 from contracts.C02_coerce_helper import CoerceDtypeHelper
 from contracts.C06_run_checks import ArrayRunChecks, ColumnRunChecks, ContainerRunChecks
 
+# MultiIndexValidate: own file (C05_multiindex_validate.py)
 CONTRACTS = [ContainerValidate, SeriesSchemaValidate, ArrayValidate, IndexValidate, ArrayRunChecks, ColumnRunChecks, ContainerRunChecks, CoerceDtypeHelper]
